@@ -38,6 +38,12 @@ HISTORIES = {
     # a form feed / other non-LF line-boundary characters inside lines, and later patches below them
     "hff": [["a\n", "b\n", "c\n", "d\n"], ["a\n", "x\x0cy\n", "b\n", "c\n", "d\n"], ["a\n", "x\x0cy\n", "b\n", "C\u2028\n", "d\n", "e\x1d\n"],
             ["a\n", "b\n", "C\u2028\n", "e\x1d\n", "f\n"]],
+    # hunks whose line range straddles a digit-width boundary ('8,11c', '9,10c', a delete '9,11d' and an append '12a')
+    "hwide": [["l%d\n" % i for i in range(1, 13)],
+              ["l%d\n" % i for i in range(1, 8)] + ["X\n", "Y\n", "l12\n"],
+              ["l%d\n" % i for i in range(1, 8)] + ["X\n", "Z\n"],
+              ["l%d\n" % i for i in range(1, 8)] + ["X\n", "Z\n", "p\n", "q\n", "r\n", "s\n"],
+              ["l%d\n" % i for i in range(1, 8)] + ["X\n", "s\n"]],
     "hdot": [["Description: x\n", " a\n"], ["Description: x\n", " a\n", " .\n", " b\n"], ["Description: y\n", " .\n", ". \n", " b\n"]],
 }
 REMOTE = "http://repo.invalid/dists/sid/main/Packages"
@@ -92,6 +98,13 @@ def run_update(hist, L, variant, fault, j, f, real_download=False):
     saved = (ds.__dict__.get("open"), ds.os, ds.download_gunzip_lines, ds.read_lines_sha1,
              ds.read_lines_sha256, urllib.request.urlopen)
     transport = FakeTransport(repo, fs)
+    if fault in (5, 6, 7):
+        # the downloaded patch j cannot be decompressed: truncated stream / damaged deflate data / bad header
+        import zlib
+        transport.bad_url = REMOTE + ".diff/patch-%d.gz" % j
+        transport.bad_exc = {5: EOFError("Compressed file ended before the end-of-stream marker was reached"),
+                             6: zlib.error("Error -3 while decompressing data: invalid stored block lengths"),
+                             7: gzip.BadGzipFile("Not a gzipped file (b'xx')")}[fault]
     saved2 = (gzip.open, tempfile.mkstemp, urllib.request.urlretrieve)
     ds.open = fs.open
     ds.os = FakeOS(fs)
@@ -126,10 +139,10 @@ def h_update(params, L: int, variant: int, fault: int, j: int, f: int):
     n = len(hist) - 1
     assume(0 <= L <= n + 2)
     assume(0 <= variant <= 3)
-    assume(0 <= fault <= 4)
+    assume(0 <= fault <= (7 if params.get("real_download") else 4))
     assume(0 <= j < n)
     assume(0 <= f <= params["max_f"])
-    if fault not in (1, 2):
+    if fault not in (1, 2, 5, 6, 7):
         assume(j == 0)
     if fault != 4:
         assume(f == 0)
@@ -138,7 +151,7 @@ def h_update(params, L: int, variant: int, fault: int, j: int, f: int):
     usable = variant in (0, 1)
     patching = usable and L < n
     # which outcome does the statement demand?
-    if fault in (1, 2):
+    if fault in (1, 2, 5, 6, 7):
         must_fail = patching and j >= L
     elif fault == 3:
         must_fail = patching
@@ -174,11 +187,11 @@ def h_update(params, L: int, variant: int, fault: int, j: int, f: int):
 
 def partitions(tier, seed):
     P = []
-    hs = ("h2", "h1", "hdot") if tier == "quick" else ("h2", "h3", "h2b", "h1", "hdot")
-    for h in (("hff", "h2") if tier == "quick" else ("hff", "h2", "h3", "hdot")):
+    hs = ("h2", "h1", "hdot", "hwide") if tier == "quick" else ("h2", "h3", "h2b", "h1", "hdot", "hwide")
+    for h in (("hff", "h2") if tier == "quick" else ("hff", "h2", "h3", "hdot", "hwide")):
         P.append(dict(name="update-real-download/%s" % h, harness="h_update", params=dict(history=h, max_f=9 if tier == "quick" else 12, real_download=True),
                       budget=150 if tier == "quick" else 1200,
-                      bounds="history %s with the library's own download_gunzip_lines running over stubbed mkstemp/urlretrieve/gzip.open; same state x index x fault space" % h))
+                      bounds="history %s with the library's own download_gunzip_lines running over stubbed mkstemp/urlretrieve/gzip.open; same state x index x fault space, plus: patch j cannot be decompressed (EOFError, zlib.error, BadGzipFile)" % h))
     for h in hs:
         P.append(dict(name="update/%s" % h, harness="h_update", params=dict(history=h, max_f=8 if tier == "quick" else 10),
                       budget=150 if tier == "quick" else 1200,
